@@ -87,6 +87,7 @@ inductive Fn2 where
   | last
   | raiseIfMod (k r : Nat)   -- raise ValueError when x % k == r else acc + x
   | pairLast          -- (acc_last_count + 1, x)
+  | appendFst         -- acc = (list, n): acc[0].append(x); return (acc[0], n + 1)   (a tuple seed holding a mutable list)
   deriving Repr
 
 def Fn2.eval : Fn2 → Val → Val → Except Err Val
@@ -105,5 +106,10 @@ def Fn2.eval : Fn2 → Val → Val → Except Err Val
   | .pairLast, a, x => do
       let c ← Val.add (a.nth 0) (.int 1)
       pure (Val.tup [c, x])
+  | .appendFst, a, x => do
+      let c ← Val.add (a.nth 1) (.int 1)
+      match a.nth 0 with
+      | .list l => pure (Val.tup [Val.lst (l.toList ++ [x]), c])
+      | _ => .error "AttributeError"
 
 end Rx
